@@ -34,7 +34,7 @@ LEVEL_NOTE = (
 )
 TECHNIQUE = "model-based property testing over generated legal notification histories with fake clock; rendering parsed and compared with the model"
 RULE = (
-    "Hypothesis draws 1..5 scope tuples over the value kinds above (incl. naive/aware datetimes and tuples of mixed types: comparable with themselves only), optionally a burst of 120-140 failures/completions in one scope, a legal notification history with interleaved "
+    "(also: the HTML display writing to a str/pathlib path instead of a callable) Hypothesis draws 1..5 scope tuples over the value kinds above (incl. naive/aware datetimes and tuples of mixed types: comparable with themselves only), optionally a burst of 120-140 failures/completions in one scope, a legal notification history with interleaved "
     "render/tick operations, an observer kind (console/html/ipython) and a driver (direct / update thread under the "
     "deterministic scheduler). Non-trivial = >= 2 scopes of which two are same-type-unorderable or of mixed type, and >= 1 "
     "render between notifications. Distinct = SHA-1 of the case."
